@@ -457,7 +457,8 @@ def acceptMsg (C : Crypto) (L : Loc) (e : Ep) (m : HsMsg) : R :=
   else
     handleMsg C L (withCtx e0 (noteMsg e0.ctx m.typ (rawOf m))) m.typ m.body (rawOf m)
 
-/-- post-HVR resynchronisation of the receive counter -/
+/-- post-HVR resynchronisation of the receive counter (only the ServerHello, which opens the server's
+post-cookie flight, may move it) -/
 def resync (e : Ep) (m : HsMsg) : Ep :=
   { e with ctx := { e.ctx with recvSeq := m.msgSeq, postHvr := false } }
 
@@ -470,7 +471,7 @@ def gate (C : Crypto) (L : Loc) (e : Ep) (auth : Bool) (m : HsMsg) : R :=
 opened under the negotiated keys) -/
 def procMsg (C : Crypto) (L : Loc) (e : Ep) (auth : Bool) (m : HsMsg) : R :=
   if m.msgSeq < e.ctx.recvSeq then
-    if e.ctx.postHvr && e.isClient then gate C L (resync e m) auth m
+    if e.ctx.postHvr && e.isClient && m.typ = dtlsHtServerHello then gate C L (resync e m) auth m
     else if m.typ = dtlsHtClientHello && !e.isClient then handleMsg C L e m.typ m.body (rawOf m)
     else if m.typ = dtlsHtFinished && !e.isClient && auth then
       (match e.ctx.lastFlight with        -- the client repeats its Finished: our final flight was lost
@@ -478,7 +479,7 @@ def procMsg (C : Crypto) (L : Loc) (e : Ep) (auth : Bool) (m : HsMsg) : R :=
        | none => ok e)
     else ok e
   else if m.msgSeq > e.ctx.recvSeq then
-    if e.ctx.postHvr && e.isClient then gate C L (resync e m) auth m
+    if e.ctx.postHvr && e.isClient && m.typ = dtlsHtServerHello then gate C L (resync e m) auth m
     else ok e
   else gate C L e auth m
 
